@@ -55,6 +55,7 @@ Messages(d, side, first) ==
        \cup {Msg("wl_display", 1, "sync", ~side, <<New("wl_callback", i)>>) : i \in CFree(d)}
   ELSE
      {Msg("wl_display", 1, "sync", ~side, <<New("wl_callback", i)>>) : i \in CFree(d)}
+     \cup {Msg("wl_display", 1, "get_registry", ~side, <<New("wl_registry", i)>>) : i \in CFree(d)}   \* also later, on a re-used id
      \cup {Msg("wl_display", 1, "delete_id", side, <<IntA(i)>>) : i \in {j \in CIds : Alive(d, j)}}
      \cup {Msg("wl_registry", r, "bind", ~side, <<IntA(1), StrA(ty), IntA(1), New("", i)>>) :
               r \in OfType(d, "wl_registry"), ty \in {"wl_compositor", "wl_data_device"}, i \in CFree(d)}
